@@ -227,6 +227,25 @@ CLAIMED = {
         "outlier position may truncate to one less (float representation) -- admitted.",
         "TLA+ model checked with TLC + exhaustive replay + TLC-validated outlier rows",
     ),
+    "C15": (
+        "7/C15",
+        "Penalties.tla, Segmentation.tla (PenaltyMonotone), Pelt.tla (PenaltyMonotoneInv)",
+        "TLC evaluates the documented formulas in fixed point (2 p ln n; 2 p sqrt(ln n); 2 p ln(n L); "
+        "k + 2 sqrt(k ln n) + 2 ln n; dense = CAPA penalty for p k parameters with zero per-component part; "
+        "sparse = 2 ln n plus 2 ln(k p) per component; all times the scale) and validates against them the "
+        "fitted threshold_/penalty_ attributes of PELT, Seeded/Circular binary segmentation, MovingWindow "
+        "(scale times its own published default function) and CAPA and the four public MVCAPA penalty "
+        "families over the grid n in {2,3,10,100,1e4} x p in 1..8 x five scales x parameters per variable "
+        "(non-negative, cumulative non-decreasing, proportional to the scale, combined = pointwise minimum of "
+        "the recorded dense / sparse / intermediate cumulative penalties); tuned thresholds are validated "
+        "against the quantile band on the recorded score vector; TLC proves on every enumerated table that "
+        "optimal segmentations for a larger penalty never have more changepoints, and PELT penalty sweeps on "
+        "lattice data are checked for monotone counts.",
+        "ln / sqrt constants are supplied to TLC by the harness (math.log, math.sqrt: trusted); the chi-square "
+        "terms of the intermediate family are taken from the implementation, only its structure is judged; "
+        "fixed-point unit 1e-4.",
+        "TLA+ fixed-point formulas evaluated by TLC on recorded values + TLC lemma on tables",
+    ),
 }
 
 NOT_YET = {}
